@@ -16,7 +16,11 @@ listed functions from /repo's working tree and classifies its target:
   local          the array (or the view it is a slice of) is created inside the loop body
   call:<f>       the loop passes arrays to kernel <f> that writes them (C07: `_tsc_scatter` on the shared grid —
                                       disjointness is `rows_disjoint`)
-  shared         anything else: two iterations may write the same cell  -> the premise is broken
+  shared         the target cell does not depend on the iteration, or is indexed by an inner loop variable whose
+                 range overlaps between iterations: two iterations write the same cell -> the premise is broken
+  unknown        a store the translator cannot interpret (e.g. after a refactoring): not a verdict — the table is
+                 then not regenerated, the `prange_writes_private` obligation is dropped for that run and the
+                 behavioural tie (correspondence, thread-count oracles) decides alone; recorded in the evidence
 
 Output: lean/AbacusVerif/Generated/Prange<Cxx>.lean with the table and the theorem statement's subject; the
 property's Props file proves `no entry is "shared"` by `decide`, so an edit that introduces a shared write
@@ -44,6 +48,10 @@ WRITING_KERNELS = {'_tsc_scatter'}
 
 class TieBroken(Exception):
     pass
+
+
+class Unavailable(Exception):
+    """the translator cannot interpret a store: no table, no verdict"""
 
 
 def _src(modname, fname):
@@ -81,17 +89,35 @@ def _mentions(node, var):
     return any(isinstance(x, ast.Name) and x.id == var for x in ast.walk(node))
 
 
-def _block_range(for_node, X):
-    """range(b[X], b[X+1]) -> ('block', b); range(b[X-c], b[X+1-c]) -> ('block-shifted', b); else None"""
+def _block_range(for_node, X, aliases=None):
+    """range(b[X], b[X+1]) -> 'block'; range(b[X-c], b[X+1-c]) -> 'block-shifted'; else None.
+    `aliases` maps loop-local names assigned once from an expression to that expression (lo = b[X]; hi = b[X+1])."""
     it = for_node.iter
     if not (isinstance(it, ast.Call) and _name(it.func) == 'range' and len(it.args) == 2):
         return None
     lo, hi = it.args
+    aliases = aliases or {}
+    for _ in range(3):
+        if isinstance(lo, ast.Call) and _name(lo.func) == 'int' and len(lo.args) == 1:
+            lo = lo.args[0]
+        if isinstance(hi, ast.Call) and _name(hi.func) == 'int' and len(hi.args) == 1:
+            hi = hi.args[0]
+        if _name(lo) in aliases:
+            lo = aliases[_name(lo)]
+        if _name(hi) in aliases:
+            hi = aliases[_name(hi)]
     if not (isinstance(lo, ast.Subscript) and isinstance(hi, ast.Subscript)):
         return None
     if _base_array(lo) != _base_array(hi) or _base_array(lo) is None:
         return None
     li, hi_i = _first_index(lo), _first_index(hi)
+
+    class _Subst(ast.NodeTransformer):
+        def visit_Name(self, node):
+            return aliases.get(node.id, node) if node.id != X else node
+    for _ in range(2):      # tid2 = tid - Nthread1;  b[tid2], b[tid2 + 1]
+        li = _Subst().visit(ast.parse(ast.unparse(li), mode='eval').body)
+        hi_i = _Subst().visit(ast.parse(ast.unparse(hi_i), mode='eval').body)
     if _name(li) == X and isinstance(hi_i, ast.BinOp) and isinstance(hi_i.op, ast.Add) and \
             _name(hi_i.left) == X and isinstance(hi_i.right, ast.Constant) and hi_i.right.value == 1:
         return 'block'
@@ -145,10 +171,26 @@ def classify_function(modname, fname):
                             local_arrays.add(nm)
                         elif isinstance(v, ast.Call) and isinstance(v.func, ast.Attribute) and _base_array(v.func.value) in local_arrays:
                             local_arrays.add(nm)                # e.g. iord = part[:, coord].argsort()
+        aliases = {}
+        assigned_counts = {}
+        for node in ast.walk(loop):
+            if isinstance(node, ast.Assign) and len(node.targets) == 1 and _name(node.targets[0]):
+                nm = _name(node.targets[0])
+                assigned_counts[nm] = assigned_counts.get(nm, 0) + 1
+                aliases[nm] = node.value
+            elif isinstance(node, ast.AugAssign) and _name(node.target):
+                assigned_counts[_name(node.target)] = assigned_counts.get(_name(node.target), 0) + 2
+        aliases = {k: v for k, v in aliases.items() if assigned_counts.get(k) == 1}
+        nonblock_loop_vars = set()
+        for node in ast.walk(loop):
             if isinstance(node, ast.For) and node is not loop:
-                kind = _block_range(node, X)
+                kind = _block_range(node, X, aliases)
                 if kind:
                     block_vars[_name(node.target)] = kind
+                elif _name(node.target) and _mentions(node.iter, X):
+                    # an inner range that depends on the prange variable but is not a block of a boundary array:
+                    # ranges of different iterations overlap in general
+                    nonblock_loop_vars.add(_name(node.target))
 
         inner_loop_vars = {_name(n.target) for n in ast.walk(loop) if isinstance(n, ast.For) and _name(n.target)}
 
@@ -158,7 +200,7 @@ def classify_function(modname, fname):
                 return 'local'
             first = _first_index(sub)
             if isinstance(first, ast.Slice):
-                return 'local' if arr in local_arrays else 'shared'
+                return 'local' if arr in local_arrays else 'unknown'
             nm = _name(first)
             if nm == X:
                 return 'loopvar'
@@ -181,7 +223,14 @@ def classify_function(modname, fname):
                             return 'loopvar'
                         if v in block_vars:
                             return 'block-shifted'
-            return 'shared'
+            # definitely shared: the cell does not depend on the iteration at all, or is indexed by an inner loop
+            # variable whose range overlaps between iterations
+            depends = {X} | set(block_vars) | set(tid_vars) | set(cursors) | inner_loop_vars
+            if not any(_mentions(first, w) for w in depends):
+                return 'shared'
+            if nm in nonblock_loop_vars:
+                return 'shared'
+            return 'unknown'
 
         for node in ast.walk(loop):
             tgts = []
@@ -216,6 +265,9 @@ def generate(pid, lean_dir):
     rows = []
     for modname, fname in TARGETS[pid]:
         rows += classify_function(modname, fname)
+    unknown = [r for r in rows if r[2] == 'unknown']
+    if unknown:
+        raise Unavailable('; '.join('%s: %s (line %d)' % (r[0], r[3], r[4]) for r in unknown[:5]))
     # de-duplicate (function, array, kind), keep one source excerpt
     seen, uniq = set(), []
     for f, a, k, ex, ln in rows:
